@@ -31,3 +31,22 @@ Print Assumptions C19_oversized_is_error.
 Theorem C19_dead_handle_is_error : forall send_ok, send_msg false send_ok = false.
 Proof. exact dead_handle_is_error. Qed.
 Print Assumptions C19_dead_handle_is_error.
+
+(* translator obligations (lib/gen_statespace.py reads the structs, statics and mutable bindings of the
+   modelled code on every run): the code has the state the model represents and no other *)
+From Portus Require Import StateTie.
+From PortusGen Require Import StateSpace.
+From Coq Require Import String.
+Open Scope string_scope.
+Theorem C19_source_chan_state : impl_fields_ChanSocket = model_fields_ChanSocket.
+Proof. exact fields_ChanSocket_tie. Qed.
+Print Assumptions C19_source_chan_state.
+Theorem C19_source_unix_state : impl_fields_UnixSocket = model_fields_UnixSocket.
+Proof. exact fields_UnixSocket_tie. Qed.
+Print Assumptions C19_source_unix_state.
+Theorem C19_source_shared_state_chan : nth 3 impl_shared_state_tokens "" = "src/ipc/chan.rs: -".
+Proof. exact shared_state_ipc_chan. Qed.
+Print Assumptions C19_source_shared_state_chan.
+Theorem C19_source_shared_state_unix : nth 4 impl_shared_state_tokens "" = "src/ipc/unix.rs: -".
+Proof. exact shared_state_ipc_unix. Qed.
+Print Assumptions C19_source_shared_state_unix.
